@@ -107,6 +107,7 @@ def run(ck):
         seen.add(k)
         replay(ck, em, rec)
     quadrature(ck, em, rng, 6 if quick else 14)
+    tail_sweep(ck, em, rng, 6 if quick else 30)
 
 
 def build(em, m, history=False):
@@ -239,3 +240,80 @@ def quadrature(ck, em, rng, count):
         if not abs(val - 1) < 1e-6:
             ck.violation("M2:GmmDensity:IntegratesToOne", {"mechanism": "M2", "module": "GmmDensity", "machine": repr(m),
                                                           "detail": "integral of exp(log_likelihood) = %.9f" % val})
+
+
+def dec_ll(g, x):
+    """log sum_c w_c prod_d N(x_d; mu_cd, var_cd) of the machine's own (float) parameters at 60 digits."""
+    w, mu, var = np.asarray(g.weights), np.asarray(g.means), np.asarray(g.variances)
+    terms = []
+    for c in range(len(w)):
+        q = sum((Decimal(float(x[d])) - Decimal(float(mu[c, d]))) ** 2 / Decimal(float(var[c, d]))
+                + (2 * PI * Decimal(float(var[c, d]))).ln() for d in range(mu.shape[1]))
+        terms.append(Decimal(float(w[c])).ln() - q / 2)
+    return terms, lse(terms)
+
+
+def tail_sweep(ck, em, rng, count):
+    """GmmDensity holds at every distance from the means: one sample walked outwards along a ray so that its
+    log-likelihood sweeps 1 ... 1e7 geometrically and the band 600 ... 800 (where exp() of a double leaves the normal
+    range, then flushes to zero) in steps of 0.5; scored alone, next to a bulk sample, next to a farther sample,
+    in one-row Dask blocks and through acc_stats."""
+    import dask
+    import dask.array as da
+    mags = np.concatenate([np.geomspace(1, 1e7, 120), np.arange(600, 800, 0.5)])
+    for i in range(count):
+        C = rng.choice([1, 2, 3])
+        D = rng.choice([1, 2, 3])
+        m = machines(rng, C, D, 1)[0]
+        g = build(em, {"w": [[x.numerator, x.denominator] for x in m["w"]],
+                       "mu": [[[x.numerator, x.denominator] for x in r] for r in m["mu"]],
+                       "var": [[[x.numerator, x.denominator] for x in r] for r in m["var"]],
+                       "floor": [m["floor"].numerator, m["floor"].denominator]})
+        r = np.random.RandomState(rng.randrange(10 ** 6))
+        u = r.normal(size=D)
+        u /= np.linalg.norm(u)
+        c0 = r.randint(0, C)
+        sd = np.sqrt(np.asarray(g.variances)[c0])
+        X = np.array([np.asarray(g.means)[c0] + np.sqrt(2 * t) * sd * u for t in mags])
+        exp = [dec_ll(g, x) for x in X]
+        exp_ll = np.array([float(e[1]) for e in exp])
+        bulk = np.asarray(g.means)[c0] + 0.3 * sd
+        ck.replayed += 1
+        ck.seen(["tail", i, repr(m)])
+        scn = {"machine": repr(m), "ray_from_component": int(c0), "direction": u.tolist()}
+
+        def bad(clause, j, how, got):
+            ck.violation("M2:GmmDensity:" + clause, {"mechanism": "M2", "module": "GmmDensity", "scenario": scn,
+                         "sample": X[j].tolist(), "detail": "%s: log_likelihood %r, expected %r" % (how, float(got), float(exp_ll[j]))})
+
+        def close(a, b, tol=1e-10):
+            return np.isfinite(a) and abs(a - b) <= tol * max(1.0, abs(b))
+        whole = np.asarray(g.log_likelihood(X))
+        lwl = np.asarray(g.log_weighted_likelihood(X))
+        with dask.config.set(scheduler="synchronous"):
+            rows = np.asarray(g.log_likelihood(da.from_array(X, chunks=(1, D))).compute())
+        ok = True
+        for j in range(len(X)):
+            alone = float(np.asarray(g.log_likelihood(X[j]))[0])
+            pair = float(np.asarray(g.log_likelihood(np.stack([bulk, X[j]])))[1])
+            far = float(np.asarray(g.log_likelihood(np.stack([X[j], X[-1]])))[0])
+            for how, got in (("scored alone", alone), ("next to a sample near a mean", pair),
+                             ("next to a farther sample", far), ("inside the whole ray", whole[j]),
+                             ("one-row Dask blocks", rows[j])):
+                if not close(got, exp_ll[j]):
+                    bad("TailSweep", j, how, got)
+                    ok = False
+                    break
+            if ok and not all(close(lwl[c, j], float(exp[j][0][c])) for c in range(C)):
+                bad("CachedFormIsDensity", j, "log_weighted_likelihood %s" % lwl[:, j].tolist(), lwl[:, j].max())
+                ok = False
+            if ok:
+                st = g.acc_stats(np.stack([bulk, X[j]]))
+                e2 = float(dec_ll(g, bulk)[1] + exp[j][1])
+                if not close(float(st.log_likelihood), e2):
+                    bad("StatsLogLikelihood", j, "acc_stats([near, this]).log_likelihood (expected %r)" % e2, float(st.log_likelihood))
+                    ok = False
+            if not ok:
+                break
+        if ok:
+            ck.sample({"mechanism": "M2", "tail_sweep": scn, "samples": len(X), "verdict": "ok"}, limit=3)
